@@ -218,8 +218,95 @@ def spec_duplicate_init():
                notes=['relational: duplicate_kernels differing only in case give identical selections'])
 
 
+# ---- SchedulerConfig.match_item_keys: result depends only on the folded spelling of name and keys -------------
+CONF = 'loki/batch/configure.py'
+
+
+def spec_match_item_keys(nparts, parents):
+    """relational: two executions whose item_name / keys differ only in letter case return the same matches.
+    item_name is built from `nparts` '#'-free pieces (1: local name, 2: scope#local, 3: scope#type#member)"""
+    g = {'as_tuple': lambda x: () if x is None else ((x,) if isinstance(x, (str, SStr)) else tuple(x)),
+         'fnmatch': None, 'accumulate': None}
+    fn = inline(CONF, 'SchedulerConfig.match_item_keys', g)
+    HASH = z3.StringVal('#')
+
+    def setup(spec):
+        c = ctx()
+        names, keys = [], []
+        pieces = [[SStr(c.fresh(z3.StringSort(), 'part%d_run%d' % (i, k))) for i in range(nparts)] for k in (0, 1)]
+        for i in range(nparts):
+            a, b = pieces[0][i], pieces[1][i]
+            c.assume(_LOWER(a.t) == _LOWER(b.t))
+            for x in (a, b):
+                # the pieces contain neither '#' nor '%' (and neither do their lower-case forms: not letters)
+                for ch in ('#', '%'):
+                    c.assume(z3.Not(z3.Contains(x.t, z3.StringVal(ch))))
+                    c.assume(z3.Not(z3.Contains(_LOWER(x.t), z3.StringVal(ch))))
+        for k in (0, 1):
+            t = pieces[k][0].t
+            for p_ in pieces[k][1:]:
+                t = z3.Concat(t, HASH, p_.t)
+            names.append(SStr(t))
+        k1, k2 = SStr(c.fresh(z3.StringSort(), 'key_run0')), SStr(c.fresh(z3.StringSort(), 'key_run1'))
+        c.assume(_LOWER(k1.t) == _LOWER(k2.t))
+        env = {'names': names, 'keys': (k1, k2)}
+        return (env,), {}, env
+
+    def run(env):
+        return [fn(env['names'][k], [env['keys'][k]], False, parents) for k in (0, 1)]
+
+    def post(env, r):
+        a, b = r
+        la, lb = vcrt.m_len(a), vcrt.m_len(b)
+        out = [('same-number-of-matches', z3.BoolVal(la == lb) if isinstance(la, int) and isinstance(lb, int)
+                else vcrt.as_int_term(la) == vcrt.as_int_term(lb))]
+        if isinstance(la, int) and isinstance(lb, int) and la == lb:
+            for i in range(la):
+                out.append(('same-match#%d' % i, as_str_term(a[i]) == as_str_term(b[i])))
+        return out
+
+    def raises(env, exc):
+        return None
+
+    def decode(env, m, r):
+        ev = lambda t: m.eval(t, model_completion=True)
+        gs = lambda x: (ev(x.t).as_string() if z3.is_string_value(ev(x.t)) else '')
+        return {'function': 'match_item_keys', 'name_a': gs(env['names'][0]), 'name_b': gs(env['names'][1]),
+                'key_a': gs(env['keys'][0]), 'key_b': gs(env['keys'][1]), 'match_item_parents': parents}
+    return _mk('SchedulerConfig.match_item_keys', CONF, setup, post, raises=raises, decode=decode, fn=run,
+               variant='%d-part name%s' % (nparts, ',parents' if parents else ''),
+               notes=['relational: item_name and keys differing only in letter case; use_pattern_matching=False'])
+
+
+def bounded_standin(obname, tier):
+    """stand-in for an undecided match_item_keys obligation: native enumeration of case permutations"""
+    if 'match_item_keys' not in obname:
+        return None
+    import json
+    import os
+    import subprocess
+    if getattr(bounded_standin, 'cache', None) is None:
+        root = os.path.dirname(os.path.dirname(os.path.abspath(__file__)))
+        repo = os.environ.get('LOKI_REPO', '/repo')
+        p = subprocess.run([os.environ.get('LOKI_PYTHON', '/venv/bin/python'), os.path.join(root, 'bounded', 'C23_native.py')],
+                           capture_output=True, text=True, timeout=600, env=dict(os.environ, PYTHONPATH=repo), cwd=repo)
+        line = next((l for l in p.stdout.splitlines() if l.startswith('{')), None)
+        bounded_standin.cache = json.loads(line) if line else {'cases': 0, 'violation': False, 'error': p.stderr[-400:]}
+    d = bounded_standin.cache
+    return {'name': 'bounded/match_item_keys', 'cases': d.get('cases', 0), 'distinct': d.get('cases', 0),
+            'violation': bool(d.get('violation')), 'cex': d.get('cex'),
+            'rule': 'all lower/UPPER/Capitalised permutations per name piece of 4 item names x 8 keys, with and '
+                    'without match_item_parents; matches compared across spellings', 'bound': '4 names x 8 keys',
+            'for_obligation': obname}
+
+
+bounded_standin.cache = None
+
+
 def specs(tier='quick'):
-    return [spec_item_eq_hash(), spec_scope_local_name(), spec_duplicate_names(), spec_duplicate_init()]
+    return [spec_item_eq_hash(), spec_scope_local_name(), spec_duplicate_names(), spec_duplicate_init(),
+            spec_match_item_keys(1, False), spec_match_item_keys(2, False), spec_match_item_keys(3, False),
+            spec_match_item_keys(2, True)]
 
 
 META = {
